@@ -651,7 +651,14 @@ class Client:
                 group_starting_handle, group_ending_handle = struct.unpack_from(
                     '<HH', attribute_value
                 )
-                service_uuid = UUID.from_bytes(attribute_value[4:])
+                if len(attribute_value) > 4:
+                    service_uuid = UUID.from_bytes(attribute_value[4:])
+                else:
+                    # 128-bit UUIDs are not part of the include declaration: read
+                    # the service declaration
+                    service_uuid = UUID.from_bytes(
+                        await self.read_value(group_starting_handle)
+                    )
                 included_service = ServiceProxy(
                     self, group_starting_handle, group_ending_handle, service_uuid, True
                 )
